@@ -218,11 +218,18 @@ def run(chk):
                if with_pt[i] else None for i in range(L)]
         # uncoupled chain = independent single sites
         chain = oqupy.SystemChain([2] * L)
+        # every second case: homogeneous dephasing handed over as ONE superoperator array, given to every (still empty) site through
+        # add_site_liouvillian before the other terms are added
+        shared_deph = it % 2 == 1
+        if shared_deph:
+            Lsh = (0.1 * (np.kron(SZ, SZ.conj()) - np.eye(4))).astype(complex)
+            for i in range(L):
+                chain.add_site_liouvillian(i, Lsh)
         for i in range(L):
             chain.add_site_hamiltonian(i, hs[i])
             if diss[i]:
                 chain.add_site_dissipation(i, lops[i], 0.3)
-        info = {"kind": "uncoupled", "L": L, "order": order, "pts": with_pt, "dissipation": diss}
+        info = {"kind": "uncoupled", "L": L, "order": order, "pts": with_pt, "dissipation": diss, "shared_dephasing_array": shared_deph}
         try:
             p = oqupy.PtTebd(oqupy.AugmentedMPS(rhos), chain, pts, oqupy.PtTebdParameters(dt=dt, order=order, epsrel=eps),
                              dynamics_sites=list(range(L)))
@@ -235,7 +242,8 @@ def run(chk):
         chk.case(info, ("uncoupled", L, order, tuple(with_pt), tuple(diss)))
         worst = 0.0
         for i in range(L):
-            sysm = oqupy.System(hs[i], gammas=[0.3] if diss[i] else [], lindblad_operators=[lops[i]] if diss[i] else [])
+            sysm = oqupy.System(hs[i], gammas=([0.3] if diss[i] else []) + ([0.1] if shared_deph else []),
+                                lindblad_operators=([lops[i]] if diss[i] else []) + ([SZ] if shared_deph else []))
             ref = quiet(oqupy.compute_dynamics, sysm, initial_state=rhos[i], dt=dt, num_steps=N, process_tensor=pts[i], progress_type="silent")
             worst = max(worst, np.abs(np.array(res["dynamics"][i].states) - np.array(ref.states)).max())
         if worst > 1e3 * eps or np.abs(np.array(res["norm"]) - 1).max() > 1e3 * eps:
